@@ -194,6 +194,12 @@ func (c19) Exec(h []Ev) []Ev {
 			a := mkDesc(evToAbs(e["ia"]), r, dec)
 			b := mkDesc(evToAbs(e["ib"]), r, false)
 			c := mkDesc(evToAbs(e["ic"]), r, dec)
+			if ia, ib := evToAbs(e["ia"]), evToAbs(e["ib"]); ia.HasPTS && ib.HasPTS && ia.PTS == ib.PTS && r.Intn(2) == 0 {
+				// both descriptors are carried by one signal (same time): the relations are the same as across two signals
+				if sa := a.SCTE35(); sa != nil {
+					sa.SetDescriptors([]scte35.SegmentationDescriptor{a, b})
+				}
+			}
 			e["a"], e["b"], e["c"] = obsDesc(a), obsDesc(b), obsDesc(c)
 			e["eq_ab"], e["eq_ba"], e["eq_bc"], e["eq_ac"], e["eq_aa"] = a.Equal(b), b.Equal(a), b.Equal(c), a.Equal(c), a.Equal(a)
 			e["cc_ac"], e["cc_bc"], e["cc_ca"], e["cc_cb"], e["cc_ab"] = a.CanClose(c), b.CanClose(c), c.CanClose(a), c.CanClose(b), a.CanClose(b)
